@@ -575,3 +575,8 @@ add("new-point-inserted-after-the-count-changed", F, ["C17"], "dfols/model.py", 
     "        self.num_pts += 1  # make sure npt is updated\n        self.npt_so_far += 1\n        self.eval_num = np.insert(self.eval_num, self.npt(), eval_num)  # add new evaluation number\n", "C17-9")
 add("s-new-point-position-read-in-place", S, ["C17", "C03", "C11", "C20", "C16"], "dfols/model.py", "        self.points = np.insert(self.points, k, x, axis=0)  # new row of xpt\n",
     "        self.points = np.insert(self.points, self.npt(), x, axis=0)  # new row of xpt\n")
+# C04-3 / C08-1 / C17-4 row NAN_HOLDER for the incumbent moves: pre-repair form of F04d
+add("nan-incumbent-never-displaced", F, ["C04", "C08", "C17"], "dfols/model.py", "        if allow_kopt_update and (self.objval[k] < self.objopt() or np.isnan(self.objopt())):\n",
+    "        if allow_kopt_update and self.objval[k] < self.objopt():\n", "NAN_HOLDER")
+add("s-nan-incumbent-test-first", S, ["C04", "C08", "C17"], "dfols/model.py", "        if allow_kopt_update and (self.objval[k] < self.objopt() or np.isnan(self.objopt())):\n",
+    "        if allow_kopt_update and (np.isnan(self.objopt()) or self.objval[k] < self.objopt()):\n")
